@@ -698,11 +698,19 @@ func (r *C16R) J() interface{} {
 	return []interface{}{"updates", as}
 }
 
-func (p *C16P) leanOp() []interface{} {
-	steps := []interface{}{}
-	for i := range p.Steps {
-		s := &p.Steps[i]
+// c16StepsJ: chain steps in protocol form; Model/Select/Omit are not chain steps of the model (Select/Omit reach it as
+// the `src` of the finisher), sel/omit collect what they named
+func c16StepsJ(in []C16St) (steps []interface{}, sel, omit []int) {
+	steps = []interface{}{}
+	sel, omit = []int{}, []int{}
+	for i := range in {
+		s := &in[i]
 		switch s.K {
+		case "model":
+		case "select": // chainable_api.go Select / Omit REPLACE Statement.Selects / Omits
+			sel = append([]int{}, s.Cols...)
+		case "omit":
+			omit = append([]int{}, s.Cols...)
 		case "where":
 			steps = append(steps, []interface{}{"where", s.W.condsJ()})
 		case "oc":
@@ -715,28 +723,49 @@ func (p *C16P) leanOp() []interface{} {
 			steps = append(steps, []interface{}{s.K})
 		}
 	}
-	var fin []interface{}
-	switch p.Fin.K {
-	case "save", "create":
-		fin = []interface{}{p.Fin.K, p.Fin.Row}
-	default:
-		inl := []interface{}{}
-		if p.Fin.Inl != nil {
-			inl = p.Fin.Inl.condsJ()
+	return
+}
+
+func (f *C16F) J(sel, omit []int) []interface{} {
+	switch f.K {
+	case "save":
+		return []interface{}{"save", f.Row}
+	case "create":
+		if len(sel)+len(omit) > 0 {
+			return []interface{}{"createfrom", []interface{}{"struct", sel, omit}, f.Row}
 		}
-		fin = []interface{}{p.Fin.K, inl}
+		return []interface{}{"create", f.Row}
+	case "cmap":
+		return []interface{}{"createfrom", []interface{}{"map", f.Cols}, f.Row}
 	}
+	inl := []interface{}{}
+	if f.Inl != nil {
+		inl = f.Inl.condsJ()
+	}
+	return []interface{}{f.K, inl}
+}
+
+func c16NextOf(rows [][]int) int {
 	next := 1
-	for _, r := range p.Rows {
+	for _, r := range rows {
 		if r[0] >= next {
 			next = r[0] + 1
 		}
 	}
-	rows := make([]interface{}, len(p.Rows))
-	for i, r := range p.Rows {
+	return next
+}
+
+func c16RowsJ(in [][]int) []interface{} {
+	rows := make([]interface{}, len(in))
+	for i, r := range in {
 		rows[i] = r
 	}
-	return []interface{}{"c16.run", "gen", c16Kinds(p.Soft), rows, next, steps, fin}
+	return rows
+}
+
+func (p *C16P) leanOp() []interface{} {
+	steps, sel, omit := c16StepsJ(p.Steps)
+	return []interface{}{"c16.run", "gen", c16Kinds(p.Soft), c16RowsJ(p.Rows), c16NextOf(p.Rows), steps, p.Fin.J(sel, omit)}
 }
 
 // ---- generators ------------------------------------------------------------------------------------
@@ -970,13 +999,8 @@ func (p *C16P) key() string { return canon(p) }
 // leanable: the program is inside the Lean model's domain (multi-row statements are judged by the e2e oracle only)
 func (p *C16P) leanable() bool {
 	switch p.Fin.K {
-	case "cmaps", "cslice", "sslice", "cmap":
+	case "cmaps", "cslice", "sslice", "save2":
 		return false
-	}
-	for _, s := range p.Steps {
-		if s.K == "select" || s.K == "omit" || s.K == "model" {
-			return false
-		}
 	}
 	return true
 }
@@ -1010,6 +1034,14 @@ func (p *C16P) collides() bool {
 // ---- suite 1: correspondence --------------------------------------------------------------------
 
 func c16CompareTie(r *Result, p *C16P, real c16RealOut, leanRaw json.RawMessage) {
+	r.CorrCompared++
+	if ok, obs, exp, note := c16TieDiff(p, real, leanRaw); !ok {
+		r.Violate(Violation{Kind: "correspondence", Suite: "tie", Input: p, Observed: obs, Expected: exp, Note: note})
+	}
+}
+
+// c16TieDiff compares the real outcome of p with the model's answer
+func c16TieDiff(p *C16P, real c16RealOut, leanRaw json.RawMessage) (bool, interface{}, interface{}, string) {
 	var m struct {
 		Rows [][]int `json:"rows"`
 		Val  []int   `json:"val"`
@@ -1017,23 +1049,28 @@ func c16CompareTie(r *Result, p *C16P, real c16RealOut, leanRaw json.RawMessage)
 		Err  string  `json:"err"`
 	}
 	if err := json.Unmarshal(leanRaw, &m); err != nil {
-		r.Violate(Violation{Kind: "correspondence", Suite: "tie", Input: p, Observed: string(leanRaw), Expected: "model output", Note: "model rejected the op"})
-		return
+		return false, string(leanRaw), "model output", "model rejected the op"
 	}
 	if m.Rows == nil {
 		m.Rows = [][]int{}
 	}
 	obs := C16O{Rows: real.Rows, Val: real.Val, RA: real.RA, Err: real.Err}
 	exp := C16O{Rows: m.Rows, Val: m.Val, RA: m.RA, Err: m.Err}
-	if exp.Err != "ok" {
-		// on a driver error only table, RowsAffected and error class are compared
+	if exp.Err != "ok" || p.Fin.K == "cmap" {
+		// on a driver error only table, RowsAffected and error class are compared; a map value is not read back
 		obs.Val, exp.Val = nil, nil
 	}
-	r.CorrCompared++
-	if canon(obs) != canon(exp) {
-		r.Violate(Violation{Kind: "correspondence", Suite: "tie", Input: p, Observed: obs, Expected: exp,
-			Note: "real finisher vs Model.Upsert.runChain (table, record, RowsAffected, error class)"})
+	if obs.Val != nil && exp.Val != nil && p.Fin.K != "foi" && p.Fin.K != "foc" && len(obs.Val) > c16Note && len(exp.Val) > c16Note {
+		// `note` read back through RETURNING: a NULL leaves the Go field untouched while '' overwrites it
+		// (schema/field.go string setter); the value abstraction identifies NULL and '' — not compared, not judged
+		obs.Val = append([]int(nil), obs.Val...)
+		exp.Val = append([]int(nil), exp.Val...)
+		obs.Val[c16Note], exp.Val[c16Note] = 0, 0
 	}
+	if canon(obs) != canon(exp) {
+		return false, obs, exp, "real finisher vs Model.Upsert.runChain (table, record, RowsAffected, error class)"
+	}
+	return true, nil, nil, ""
 }
 
 func c16TieSuite(r *Result, rng *rand.Rand, tier string) {
@@ -1452,10 +1489,10 @@ func c16RefRun(p *C16P) C16O {
 			assigns = s.Init
 		case "oc":
 			rule = s.Rule
-		case "select":
-			ins.sel = append(ins.sel, s.Cols...)
+		case "select": // the last Select / Omit call counts
+			ins.sel = s.Cols
 		case "omit":
-			ins.omit = append(ins.omit, s.Cols...)
+			ins.omit = s.Cols
 		}
 	}
 	var rec []int
